@@ -457,8 +457,10 @@ pub fn sweep_defaults() -> Outcome {
         bad(&mut viol, "redis-default-config", format!("Config::default() = {:?}", d));
     }
     let pd = PoolConfig::default();
-    if pd.timeouts.wait.is_some() || pd.timeouts.create.is_some() || pd.timeouts.recycle.is_some() || !matches!(pd.queue_mode, QueueMode::Fifo) || pd.max_size == 0 {
-        bad(&mut viol, "pool-default-config", format!("PoolConfig::default() = {:?}", pd));
+    // documented: no timeouts, Fifo, max_size = physical cpu count * 4
+    let cpus4 = num_cpus::get_physical() * 4;
+    if pd.timeouts.wait.is_some() || pd.timeouts.create.is_some() || pd.timeouts.recycle.is_some() || !matches!(pd.queue_mode, QueueMode::Fifo) || pd.max_size != cpus4 {
+        bad(&mut viol, "pool-default-config", format!("PoolConfig::default() = {:?}, documented: no timeouts, Fifo, max_size {} (physical cpus * 4)", pd, cpus4));
     }
     let mut h = std::collections::hash_map::DefaultHasher::new();
     which.hash(&mut h);
